@@ -7,9 +7,12 @@
 (* harness replays into the implementation.                                *)
 (***************************************************************************)
 EXTENDS Universe, Json
-CONSTANT Depth
+CONSTANTS Depth,         \* complete up to this nesting depth
+          ExtraDepth,    \* additionally a sample of the types of this depth (0: none)
+          SampleMod, SamplePhase
 VARIABLE T
-Init == T \in TypesAt(Depth)
+Sampled(t) == Len(ToString(t)) % SampleMod = SamplePhase % SampleMod
+Init == T \in TypesAt(Depth) \cup {t \in TypesAt(ExtraDepth) : Sampled(t)}
 Next == UNCHANGED T
 Spec == Init /\ [][Next]_T
 
@@ -30,6 +33,12 @@ SelfDelimiting ==
 PrefixRejected ==
   \A v \in Vals(T) :
     LET e == Encode(T, v) IN \A k \in 0..(Len(e.b) - 1) : ~Decode(T, SubSeq(e.b, 1, k)).ok
+
+\* C08 also for the other legal forms (unknown-length sequences as serialize_iterator writes them for
+\* iterators without an exact size hint, chunked tuples)
+AltPrefixRejected ==
+  \A v \in Vals(T) :
+    LET a == EncAlt(T, v, EmptySt) IN \A k \in 0..(Len(a.b) - 1) : ~Decode(T, SubSeq(a.b, 1, k)).ok
 
 \* C04 / C12: the alternative legal forms denote the same value
 FormsDecode ==
